@@ -42,5 +42,10 @@ REGISTRY = {
                     "no-clobber, create-before-append and stub/placeholder disjointness for every write order; real runs (absolute, relative, nested-missing output directories, naming conversion on/off, "
                     "foreign classes) are recorded as write-event traces and C10_Trace judges Inside, Spells (directory = announced Python module), Base, NoClobber and the API file name.",
             "ref": "DESIGN.md section 7 C10", "note": BASE_NOTE + " Write events are observed by wrapping pathlib.Path.open in the child process.", "technique": TECH},
+    "C12": {"text": "spec/Walker.tla models the pre-order walk with the declaration stack (one Enter/Leave step per node; children registered with API and owner together) and TLC checks "
+                    "balance, uniqueness, one-owner and resolution for every module of the universe (classes with constructors, instance attributes, static/class/property/overloaded methods, nesting to depth 3, "
+                    "nested enums, multiple and aliased superclasses, private declarations); the 2.1k modules are concretised into one package, run, and C12_Trace judges the JSON per module: validity, sortedness, "
+                    "duplicates, id form, dangling references, one owner, completeness against ExpectedInventory, flags and superclass lists.",
+            "ref": "DESIGN.md section 7 C12", "note": BASE_NOTE + " Known finding: enums nested in classes.", "technique": TECH},
 }
 NOT_APPLICABLE = {}
